@@ -503,7 +503,24 @@ class Plumbing:
             q = self.prog.qualify(f.module, fn) if fn else ""
             if q in ("numpy.asarray", "numpy.array") and len(e.args) == 1 and not [k for k in e.keywords if k.arg != "dtype" or src(k.value) not in ("float", "np.float64", "numpy.float64")]:
                 return self._classify_load(f, e.args[0], roots, env, wrap)
-            if isinstance(e.func, ast.Attribute) and e.func.attr in ("to_numpy",) and not e.args and not e.keywords:
+            if isinstance(e.func, ast.Attribute) and e.func.attr in ("to_numpy",) and not e.args and all(k.arg == "dtype" and src(k.value) in ("np.float64", "float", "numpy.float64") for k in e.keywords):
+                sel = e.func.value
+                cols = sel.slice if isinstance(sel, ast.Subscript) and isinstance(sel.value, ast.Name) and sel.value.id in roots else None
+                if isinstance(cols, ast.Name) and cols.id in env:
+                    cols = env[cols.id]
+                if isinstance(cols, ast.ListComp) and len(cols.generators) == 1 and not cols.generators[0].ifs:
+                    # frame[[name(i) for i in I]].to_numpy(): the selected columns side by side = the transpose of the columns stacked as rows
+                    one = ast.Subscript(value=sel.value, slice=cols.elt, ctx=ast.Load())
+                    rows = ast.Call(func=ast.Attribute(value=ast.Name(id="np", ctx=ast.Load()), attr="vstack", ctx=ast.Load()),
+                                    args=[ast.ListComp(elt=one, generators=cols.generators)], keywords=[])
+                    ast.fix_missing_locations(ast.copy_location(rows, e))
+                    st = self._classify_load(f, rows, roots, env, wrap)
+                    if st.kind == "csv":
+                        st.wrapper = f"T({st.wrapper})"
+                        return st
+                    return Storage("?", src(e), e, f"call:{src(e)[:60]}", e)
+                if e.keywords:
+                    return Storage("?", src(e), e, f"call:{src(e)[:60]}", e)
                 return self._classify_load(f, e.func.value, roots, env, wrap)
             if q == "numpy.column_stack" and len(e.args) == 1 and not e.keywords:
                 # columns of a table are 1-D: stacking them as columns is the transpose of stacking them as rows
